@@ -115,7 +115,7 @@ func c18Layout(r *Rng, tp *tokProg) string {
 			case 0:
 				b.WriteString("\t")
 			case 1:
-				b.WriteString(" /* c */ ")
+				b.WriteString([]string{" /* c */ ", " /*/ slash first */ ", " /***/ ", " /* * / */ ", " /* \" ' */ ", " /*//*/ ", " /* " + K["print"] + " 1; */ ", " /**/ "}[r.Intn(8)])
 			case 2:
 				if mayBreak {
 					b.WriteString(" // note " + K["print"] + " \"x\";\n")
@@ -473,6 +473,9 @@ func c18Case(c *Ctx, r *Rng, gen, src, stdin string) *Case {
 			add(t.name, text, back)
 		}
 	}
+	// family (e) applied everywhere at once: every composite sub-expression parenthesised
+	// as the ladder groups it (printed from the reference tree)
+	add("parentheses-full", ref.PrintOpts{Full: true}.Program(prog), nil)
 	// all six combined: apply token-level transforms in sequence on re-tokenised text
 	cur := tp.canonical()
 	allBack := map[string]string{}
@@ -538,6 +541,15 @@ func c18Run(c *Ctx) {
 		g := NewPG(r, 8+r.Intn(30))
 		g.Faults = r.Intn(3) == 0
 		src := g.Program(3)
+		if k%3 == 0 {
+			// expression-heavy originals: operator chains of every level over literals,
+			// printed with minimal parentheses (so the parenthesis transform has work to do)
+			var lines []string
+			for i := 1 + r.Intn(4); i > 0; i-- {
+				lines = append(lines, Print(ref.PrintOpts{}.Expr(randTreeExpr(r, 2+r.Intn(3), true), 0)))
+			}
+			src = Lines(lines...)
+		}
 		cs := c18Case(c, r, "generated-programs", src, "")
 		if cs == nil {
 			continue
@@ -554,10 +566,10 @@ func c18Run(c *Ctx) {
 func init() {
 	register(&CheckDef{
 		ID:   "C18",
-		Rule: "program groups: the shipped examples, the hand-written scoping/closure programs and seeded generated programs (valid, and with planted runtime faults), each re-rendered from the spec lexer's tokens and paired with 13 transformed variants: two random applications each of (a) layout: blanks, tabs, CR-LF, block and line comments, line breaks between any tokens except inside a ধরি...; span, (b) digits of numeric literals flipped between scripts, (c) && / || exchanged with the word spellings, (d) consistent renaming of declared variables, functions and parameters to fresh Latin or Bangla identifiers (not property keys, not built-ins), (e) 1-3 redundant parenthesis pairs around value-producing sub-expressions taken from the reference parser's node spans (never an assignment target), (f) dead code (if(false), while(false), unused functions, else of if(true), statements after a return) containing random possibly-faulting statements; plus all six combined. Original and variant must agree on stdout bytes, exit status and first diagnostic (line numbers deleted, renamed identifiers mapped back, quoted expression renderings deleted). Non-trivial = distinct original program whose variants were all compared.",
+		Rule: "program groups: the shipped examples, the hand-written scoping/closure programs and seeded generated programs (valid, and with planted runtime faults), each re-rendered from the spec lexer's tokens and paired with 14 transformed variants: two random applications each of (a) layout: blanks, tabs, CR-LF, block and line comments, line breaks between any tokens except inside a ধরি...; span, (b) digits of numeric literals flipped between scripts, (c) && / || exchanged with the word spellings, (d) consistent renaming of declared variables, functions and parameters to fresh Latin or Bangla identifiers (not property keys, not built-ins), (e) 1-3 redundant parenthesis pairs around value-producing sub-expressions taken from the reference parser's node spans (never an assignment target) and, once, every composite sub-expression parenthesised as the ladder groups it, (f) dead code (if(false), while(false), unused functions, else of if(true), statements after a return) containing random possibly-faulting statements; plus all six combined. Original and variant must agree on stdout bytes, exit status and first diagnostic (line numbers deleted, renamed identifiers mapped back, quoted expression renderings deleted). Non-trivial = distinct original program whose variants were all compared.",
 		Assumptions: []string{"no expected output is needed (metamorphic); transforms never use the code under test; programs exceeding 300000 evaluation steps are skipped"},
 		Run:         c18Run,
 		Judge:       c18Judge,
-		MustCount:   func(c *Ctx) []string { return []string{"pairs:layout", "pairs:digit-script", "pairs:logical-synonyms", "pairs:rename", "pairs:parentheses", "pairs:dead-code", "pairs:all-combined", "originals_clean", "originals_failing", "gen:shipped-examples", "cli_runs"} },
+		MustCount:   func(c *Ctx) []string { return []string{"pairs:layout", "pairs:digit-script", "pairs:logical-synonyms", "pairs:rename", "pairs:parentheses", "pairs:dead-code", "pairs:parentheses-full", "pairs:all-combined", "originals_clean", "originals_failing", "gen:shipped-examples", "cli_runs"} },
 	})
 }
